@@ -219,6 +219,7 @@ func cmdCheck(prop, tier string) int {
 
 	// 1. committed replays of known findings
 	reproduced := []string{}
+	a0fixed := 0 // replays of fixed findings re-run
 	for _, f := range ff.Findings {
 		if f.Property != prop {
 			continue
@@ -261,8 +262,13 @@ func cmdCheck(prop, tier string) int {
 			fmt.Printf("NOTE: open finding %s did not reproduce from %s (repaired?)\n", f.Signature, f.Replay)
 		}
 		if res.Viol != nil && res.Viol.Signature != f.Signature {
-			// replay ran into a different violation
-			fmt.Printf("NOTE: replay %s now ends in %s\n", f.Replay, res.Viol.Signature)
+			// the recorded history now ends in a violation that is listed nowhere: report it
+			fmt.Printf("VIOLATION property=%s replay=%s\n", prop, path)
+			fmt.Printf("  (replay of %s now ends in %s: %s)\n", f.Signature, res.Viol.Signature, res.Viol.Detail)
+			exit = 1
+		}
+		if f.Status == "fixed" {
+			a0fixed++
 		}
 	}
 
@@ -364,6 +370,7 @@ func cmdCheck(prop, tier string) int {
 	}
 
 	wall := time.Since(start).Seconds()
+	a.stats["fixed-finding-replays-rerun"] = a0fixed
 	if err := writeEvidence(prop, tier, seed, a, reproduced, len(sigs), wall, workers, ps); err != nil {
 		fmt.Fprintln(os.Stderr, "cannot write evidence:", err)
 		return 2
